@@ -197,6 +197,14 @@ func c02build(c *fw.Ctx, idx int) c02case {
 		case 0:
 			cs.Class = "struct-unterminated-action"
 			cs.Src = valid + d.L + " x "
+			if d.R != "}}" && r.Intn(2) == 0 {
+				// what closes an action under the default delimiters (with or without trim marker) closes nothing here
+				cs.Class = "struct-unterminated-action-foreign-closer"
+				cs.Src = valid + d.L + " 1" + []string{" -}}", " }}", "}}", " -}} tail", " - }}"}[r.Intn(5)]
+				if strings.Contains(cs.Src[len(valid)+len(d.L):], d.R) {
+					cs.Class, cs.Src = "struct-unterminated-action", valid+d.L+" x "
+				}
+			}
 		case 1:
 			cs.Class = "struct-unterminated-comment"
 			cs.Src = valid + d.CL + " never closed"
@@ -375,8 +383,8 @@ func c02run(c *fw.Ctx, idx int) {
 		var o c02outcome
 		select {
 		case o = <-ch:
-		case <-time.After(30 * time.Second):
-			c.Violation("c02:hang:"+cs.Class, "", "parse did not return within 30s (normal: <1ms)")
+		case <-time.After(8 * time.Second):
+			c.Violation("c02:hang:"+cs.Class, "", "parse did not return within 8s (normal: <1ms)")
 			c.AbortWorker()
 		}
 		c.Count("parses", 1)
